@@ -180,6 +180,6 @@ def runner_files(tier, seed):
 
 
 PARTS = {
-    "binning": {"strategy": spec_bin, "check": check_bin, "examples": {"quick": 2400, "thorough": 40000}, "sample": view},
+    "binning": {"strategy": spec_bin, "check": check_bin, "examples": {"quick": 4800, "thorough": 40000}, "sample": view},
     "files": {"runner": runner_files, "replay": rcrun.replay_rc},
 }
